@@ -928,11 +928,11 @@ def direct_partner(sp):
     return None
 
 
-def st_shape(draw, min_dims=1, max_dims=3, max_in=MAX_IN):
+def st_shape(draw, min_dims=1, max_dims=3, max_in=MAX_IN, dim_hi=6):
     nd = draw(st.integers(min_dims, max_dims))
     out = []
     for _ in range(nd):
-        room = max(1, min(6, max_in // max(1, prod(out))))
+        room = max(1, min(dim_hi, max_in // max(1, prod(out))))
         out.append(draw(st.integers(1, room)))
     return out
 
@@ -1092,7 +1092,7 @@ MAX_NDIM = {"Tile": 3, "Wavelet": 3, "Sense": 3}
 
 @st.composite
 def st_tree(draw, max_depth=2, dtypes=("complex128", "complex128", "complex64"), first_round_robin=True,
-            min_dims=1, max_dims=3, max_in=MAX_IN, names=None):
+            min_dims=1, max_dims=3, max_in=MAX_IN, names=None, dim_hi=6):
     dt = draw(st.sampled_from(dtypes))
     first = None
     lo, hi = min_dims, max_dims
@@ -1101,7 +1101,7 @@ def st_tree(draw, max_depth=2, dtypes=("complex128", "complex128", "complex64"),
         first = [draw(st.sampled_from(names or ALL_LEAF_NAMES))]
         lo = max(lo, MIN_NDIM.get(first[0], 1))
         hi = min(max(hi, lo), MAX_NDIM.get(first[0], 9))
-    s = st_shape(draw, lo, hi, max_in)
+    s = st_shape(draw, lo, hi, max_in, dim_hi)
     depth = draw(st.integers(0, max_depth))
     sp = tree(draw, s, dt, depth, first)
     o, i = shape_of(sp)
@@ -1134,6 +1134,64 @@ def localize(sp, fails):
         if nxt is None:
             return cur
         cur = nxt
+
+
+@st.composite
+def st_mri(draw):
+    dt = draw(st.sampled_from(["complex128", "complex128", "complex64"]))
+    kind = draw(st.sampled_from(["Sense", "Sense", "ConvSense", "ConvImage", "Ptx"]))
+    if kind == "Sense":
+        nd = draw(st.integers(2, 3))
+        s = [draw(st.integers(1, 4 if nd == 2 else 3)) for _ in range(nd)]
+        sp = g_sense(draw, s, dt)
+    elif kind in ("ConvSense", "ConvImage"):
+        nd = draw(st.integers(1, 2))
+        nc = draw(st.integers(1, 3))
+        big = [draw(st.integers(2, 5)) for _ in range(nd)]
+        small = [draw(st.integers(1, b)) for b in big]
+        # valid-mode convolution: the image kernel is the larger array for ConvSense, either for ConvImage
+        noncart = draw(st.booleans())
+        out_grid = [b - s + 1 for b, s in zip(big, small)]
+        coord = weights = grd = None
+        if noncart:
+            npts = draw(st.integers(1, 5))
+            coord = _coord(draw, out_grid, [npts], ("in", "in", "out", "int"))
+            grd = out_grid
+            kshape = [nc, npts]
+        else:
+            kshape = [nc] + out_grid
+        if draw(st.booleans()):
+            n = prod(kshape)
+            weights = {"k": "dy", "shape": kshape, "dtype": _real(dt), "re": [draw(st.integers(0, 9)) for _ in range(n)],
+                       "im": None, "den": 4}
+        if kind == "ConvSense":
+            sp = {"op": "ConvSense", "img_ker_shape": big, "mps_ker": _arr_spec(draw, [nc] + small, dt),
+                  "coord": coord, "weights": weights, "grd_shape": grd}
+        else:
+            sp = {"op": "ConvImage", "mps_ker_shape": [nc] + small, "img_ker": _arr_spec(draw, big, dt),
+                  "coord": coord, "weights": weights, "grd_shape": grd}
+    else:
+        nd = draw(st.integers(2, 3))
+        img = [draw(st.integers(1, 4 if nd == 2 else 3)) for _ in range(nd)]
+        nc = draw(st.integers(1, 3))
+        nt = draw(st.integers(1, 5))
+        n = nt * nd
+        coord = {"k": "dy", "shape": [nt, nd], "dtype": "float64", "re": [draw(st.integers(-24, 24)) for _ in range(n)],
+                 "im": None, "den": 8}
+        b0 = None
+        if draw(st.booleans()):
+            b0 = {"k": "g", "shape": img, "dtype": "float64", "seed": draw(A.seeds)}
+        sp = {"op": "PtxSpatialExplicit", "sens": _arr_spec(draw, [nc] + img, "complex128"), "coord": coord,
+              "dt": draw(st.sampled_from([4e-6, 1e-5, 1e-3])), "b0": b0}
+        dt = "complex128"
+    wrap = draw(st.sampled_from(["none", "none", "H", "scale", "conj"]))
+    if wrap == "H":
+        sp = {"op": "H", "a": sp}
+    elif wrap == "scale":
+        sp = {"op": "Scale", "a": sp, "s": st_scalar(draw, False), "side": "l"}
+    elif wrap == "conj":
+        sp = {"op": "Conj", "a": sp}
+    return {"tree": sp, "dtype": dt}
 
 
 def count_nodes(sp):
